@@ -28,8 +28,9 @@ package runner
 //@   loop over for#1: invariant held == old(held)
 //@   loop over for#1: invariant g.capacity >= 0 && acq(g.capacity) == g.capacity
 
-//   n_wake - wake-up calls (Cond.Signal / Cond.Broadcast) made by this goroutine
-//@ ghost n_wake int threadlocal = 0
+//   wakes[slot(x.m)] - wake-up calls (Cond.Signal / Cond.Broadcast) this goroutine made on the
+//                      condition variable of the monitor whose mutex is field m of x
+//@ ghost wakes smt:(Array~Ref~Int) threadlocal
 // Every slot given back is announced: a waiter that is not woken when capacity becomes available
 // sleeps forever (the safety half of "no lost wake-up").
 //@ func (*runner.gate).exit
@@ -38,8 +39,9 @@ package runner
 //@   requires haspermit: held >= 1
 //@   ensures  permit: held == old(held) - 1
 //@   ensures  unlocked: !holds(g.m)
-//@   ensures  wakes-a-waiter: n_wake == old(n_wake) + 1
-//@   modifies held, n_wake
+//@   ensures  wakes-a-waiter: wakes[slot(g.m)] == old(wakes)[slot(g.m)] + 1
+//@   ensures  wakes-nobody-else: forall s: ref :: s != slot(g.m) ==> wakes[s] == old(wakes)[s]
+//@   modifies held, wakes
 
 //@ func runner.newGate
 //@   requires capacity >= 1
@@ -99,8 +101,9 @@ package runner
 //@   ensures  t.status >= old(t.status)
 //@   ensures  old(t.status) >= 2 ==> t.status == old(t.status)
 //@   ensures  claimed == old(claimed)
-//@   ensures  wakes-the-waiters: n_wake == old(n_wake) + 1
-//@   modifies holds(t.m), n_wake
+//@   ensures  wakes-the-waiters: wakes[slot(t.m)] == old(wakes)[slot(t.m)] + 1
+//@   ensures  wakes-nobody-else: forall s: ref :: s != slot(t.m) ==> wakes[s] == old(wakes)[s]
+//@   modifies holds(t.m), wakes
 
 //@ func (*runner.target).run
 //@   requires t != nil && r != nil && r.gate != nil
@@ -110,7 +113,7 @@ package runner
 //@   requires n_load == 0 && n_eval == 0
 //@   ensures  nopermit: held == 0
 //@   ensures  final: t.status >= 2
-//@   ensures  wakes-the-waiters: n_wake >= old(n_wake) + 1
+//@   ensures  wakes-the-waiters: wakes[slot(t.m)] >= old(wakes)[slot(t.m)] + 1
 //@   ensures  once-load: n_load == old(n_load) + 1
 //@   ensures  once-eval: n_eval <= old(n_eval) + 1
 //@   modifies heap, n_load, n_eval
